@@ -62,6 +62,20 @@ class Rewrite(ast.NodeTransformer):
     def _plain_index(sl):
         return not isinstance(sl, ast.Slice) and not (isinstance(sl, ast.Tuple) and any(isinstance(e, ast.Slice) for e in sl.elts))
 
+    def visit_DictComp(self, node):
+        self.generic_visit(node)
+        if self._symkeys_on():
+            pairs = ast.ListComp(ast.Tuple([node.key, node.value], ast.Load()), node.generators)
+            return ast.copy_location(ast.Call(ast.Name('sx__mkdict', ast.Load()), [pairs], []), node)
+        return node
+
+    def visit_Dict(self, node):
+        self.generic_visit(node)
+        if self._symkeys_on() and node.keys and all(k is not None for k in node.keys):
+            pairs = ast.List([ast.Tuple([k, v], ast.Load()) for k, v in zip(node.keys, node.values)], ast.Load())
+            return ast.copy_location(ast.Call(ast.Name('sx__mkdict', ast.Load()), [pairs], []), node)
+        return node
+
     def visit_Subscript(self, node):
         self.generic_visit(node)
         if self._symkeys_on() and isinstance(node.ctx, ast.Load) and self._plain_index(node.slice):
@@ -265,6 +279,13 @@ def sx_dictget(d, k, default=None):
     return d.get(k, default)
 
 
+def sx_mkdict(pairs):
+    d = {}
+    for k, v in pairs:
+        sx_setitem(d, k, v)
+    return d
+
+
 def sx_in_dict(k, d):
     ok, _ = _lookup(d, k)
     return ok
@@ -299,6 +320,7 @@ def install(sets=False, symkeys=()):
     builtins.sx__getitem = sx_getitem
     builtins.sx__setitem = sx_setitem
     builtins.sx__dictget = sx_dictget
+    builtins.sx__mkdict = sx_mkdict
     if _reset_side not in E.PATH_START:
         E.PATH_START.append(_reset_side)
     sys.dont_write_bytecode = True
